@@ -852,12 +852,7 @@ func (c *Ctx) c05RandomStep(p *c05Prog) {
 					o = c05Out{mode: "into", reg: &c05Reg{ct: fresh, want: make([]uint64, s.n)}}
 				}
 				if p.si {
-					nb = a.nb
-					if o.mode == "into" { // nop: the fresh output stays an all-zero ciphertext
-						want = make([]uint64, s.n)
-						nb = 0
-						resLevel = o.reg.level()
-					}
+					nb = a.nb // scale-invariant evaluator: the receiver becomes a copy of op0
 				} else if la > 0 {
 					resLevel = la - 1
 					nb = lmax(a.nb-math.Log2(float64(s.qs[la])), lN+2) + 1
